@@ -53,6 +53,7 @@ type pollCtx struct {
 	n         int
 	cause     error
 	cancelled bool
+	cancelFn  context.CancelCauseFunc // non-nil: cancel the embedded context (created by WithCancelCause) at poll k
 }
 
 var (
@@ -60,11 +61,18 @@ var (
 	openChan   = make(chan struct{})
 )
 
+var errShutdown = errors.New("server is shutting down")
+
 func (c *pollCtx) Done() <-chan struct{} {
 	idx := c.n
 	c.n++
 	if c.k >= 0 && idx >= c.k {
 		c.cancelled = true
+		if c.cancelFn != nil {
+			// a real cancellation with a cause: ctx.Err() is context.Canceled, context.Cause(ctx) is errShutdown
+			c.cancelFn(errShutdown)
+			return c.Context.Done()
+		}
 		return closedChan
 	}
 	return openChan
@@ -72,6 +80,9 @@ func (c *pollCtx) Done() <-chan struct{} {
 
 func (c *pollCtx) Err() error {
 	if c.cancelled {
+		if c.cancelFn != nil {
+			return c.Context.Err()
+		}
 		return c.cause
 	}
 	return nil
@@ -88,10 +99,24 @@ type runOpts struct {
 	cause  error
 }
 
+// decoyVars is passed in a first WithVars that the real WithVars then replaces: an option given twice must
+// behave like its last occurrence and must not write into the map of an earlier one (checked by decoyIntact).
+var decoyVars = newDecoy()
+
+func newDecoy() exec.Vars { return exec.Vars{"x": "decoy", "zz": int64(7), "tbl": []any{"decoy"}} }
+func decoyIntact() bool {
+	ok := len(decoyVars) == 3 && decoyVars["x"] == "decoy" && decoyVars["zz"] == int64(7)
+	if t, isArr := decoyVars["tbl"].([]any); !isArr || len(t) != 1 || t[0] != "decoy" {
+		ok = false
+	}
+	decoyVars = newDecoy()
+	return ok
+}
+
 func (o runOpts) options() []exec.Option {
 	var opts []exec.Option
 	if o.vars != nil {
-		opts = append(opts, exec.WithVars(o.vars))
+		opts = append(opts, exec.WithVars(decoyVars), exec.WithVars(o.vars))
 	}
 	if o.silent {
 		opts = append(opts, exec.WithSilent())
@@ -110,6 +135,10 @@ func (o runOpts) ctx() *pollCtx {
 	cause := o.cause
 	if cause == nil {
 		cause = context.Canceled
+	}
+	if o.k >= 0 && cause == context.Canceled {
+		inner, cancel := context.WithCancelCause(base)
+		return &pollCtx{Context: inner, k: o.k, cause: cause, cancelFn: cancel}
 	}
 	return &pollCtx{Context: base, k: o.k, cause: cause}
 }
